@@ -69,3 +69,10 @@ package fastcgi
 //@   ensures [count_in_range] 0 <= n && n <= len(p)
 //@   ensures [no_invented_bytes] (err == nil && len(old(w.buf)) > 0) ==> (n <= len(old(w.buf)) && len(w.buf) == len(old(w.buf)) - n)
 //@   ensures [error_reads_nothing] err != nil ==> n == 0
+
+//@ unit setup_sweep props=C11 files=setup.go nilchecks=on nonnil_params=on dispenser_variants=on filter=`.`
+//@ // Safety sweep of this directive's setup code: index, slice, division, nil-map store, nil dereference, explicit panic,
+//@ // and termination of the loops driven by the token cursor. No functional contract; callees in the dispenser through their contracts.
+//@ use casketfile/contracts_verif.go:dispenser_api
+//@ use @verif/specs/stdlib.spec:stdlib
+//@ use @verif/specs/stdlib.spec:casket_api
